@@ -30,7 +30,7 @@ type c01Scenario struct {
 
 // addCycle rewrites the layout so that it contains a reference cycle.
 func addCycle(g *G, L *Layout) {
-	kind := g.pick("cycle-kind", []string{"extends", "extends", "extends-xfile", "extends-xfile", "include", "include", "alias", "alias", "depends_on", "depends_on", "depends_on", "alias-fanout"})
+	kind := g.pick("cycle-kind", []string{"extends", "extends", "extends-xfile", "extends-xfile", "include", "include", "alias", "alias", "depends_on", "depends_on", "depends_on", "alias-fanout", "alias-chain"})
 	root := L.WorkingDir
 	main := L.Main[0]
 	switch kind {
@@ -121,6 +121,18 @@ func addCycle(g *G, L *Layout) {
 		L.Files[main] = forms[g.n("alias-form", len(forms))]
 		L.Main = L.Main[:1]
 		L.Cycle = "alias"
+	case "alias-chain":
+		// no fan-out: every anchor is used exactly once, N levels deep (nothing to refuse; it has to finish)
+		n := 100 + g.n("chain-len", 1900)
+		var b strings.Builder
+		b.WriteString("x-a0: &a0 [x]\n")
+		for d := 1; d <= n; d++ {
+			fmt.Fprintf(&b, "x-a%d: &a%d [*a%d]\n", d, d, d-1)
+		}
+		b.WriteString("services:\n  a:\n    image: x\n")
+		L.Files[main] = b.String()
+		L.Main = L.Main[:1]
+		L.Cycle = fmt.Sprintf("alias-chain:%d", n)
 	case "alias-fanout":
 		depth := 2 + g.n("fan-depth", 11)
 		width := 2 + g.n("fan-width", 8)
@@ -722,6 +734,9 @@ func c01Run(c *Ctx, r *zsimrt.Run) {
 	} else if r.Chance("dense-dag", 1, 30) {
 		addDenseDAG(g, L)
 		class = "A-dense"
+	} else if r.Chance("long-input", 1, 25) {
+		addLongInput(g, L)
+		class = "A-long"
 	}
 	switch r.Draw("entry", 10) {
 	case 0:
